@@ -268,6 +268,67 @@ def hyp_run(ctx, check, strategy, body, max_examples, shrink=True, stateful_step
                            f'\ncase={canon(last.get("case"))[:2000]}')
 
 
+def fuzz_run(ctx, check, max_runs, frac=None):
+    '''Run the check module's coverage-guided sub-check `check` (pbt/fuzz.py: Atheris/libFuzzer in a
+    child process) and fold what it covered into ctx.  The child stops at max_runs executions or at
+    the given fraction of the shard's remaining budget, whichever comes first.'''
+    import subprocess
+    import sys
+    left = None
+    if ctx.budget_s is not None:
+        left = max(0.0, ctx.budget_s - (time.time() - ctx.start))
+    budget = 3600.0 if left is None else left * (frac if frac is not None else 1.0)
+    if budget < 2:
+        ctx.budget_exhausted = True
+        return
+    out = os.path.join(ctx.scratch, check.replace('.', '_') + '.fuzz.json')
+    env = dict(os.environ)
+    env['PYTHONHASHSEED'] = '0'
+    env['PYTHONPATH'] = VERIF_DIR + os.pathsep + env.get('PYTHONPATH', '')
+    cmd = [sys.executable, '-m', 'pbt.fuzz', ctx.prop, ctx.tier, str(ctx.seed), str(ctx.shard),
+           str(ctx.nshards), check, str(max_runs), f'{budget:.1f}', out]
+    with open(out + '.log', 'w') as log:
+        try:
+            subprocess.run(cmd, cwd=VERIF_DIR, env=env, stdout=log, stderr=log,
+                           timeout=budget + 300)
+        except subprocess.TimeoutExpired:
+            raise HarnessError(f'{check}: fuzz child did not stop {budget + 300:.0f}s after start')
+    with open(out + '.log', errors='replace') as f:
+        logtext = f.read()
+    try:
+        with open(out) as f:
+            res = json.load(f)
+    except Exception:
+        raise HarnessError(f'{check}: fuzz child left no result\n{logtext[-3000:]}')
+    if not res.get('ok'):
+        raise HarnessError(res.get('error') or f'{check}: fuzz child failed')
+    ctx.evaluations += res['evaluations']
+    ctx.nontrivial.update(res['nontrivial'])
+    ctx.classes.update(res['classes'])
+    for smp in res['samples']:
+        kind = smp.get('check', '') if isinstance(smp, dict) else ''
+        if ctx.sample_kinds[kind] < 2:
+            ctx.sample_kinds[kind] += 1
+            ctx.samples.append(smp)
+    ctx.violations.extend(res['violations'])
+    ctx.known_hits.update(res['known_hits'])
+    for sig, ex in res['known_examples'].items():
+        ctx.known_examples.setdefault(sig, ex)
+    for k, v in (res.get('extra') or {}).items():
+        if isinstance(v, (int, float)):
+            ctx.extra[k] = ctx.extra.get(k, 0) + v
+    # libFuzzer's own account of the campaign: last "cov: N ft: M corp: K" line
+    import re
+    stats = re.findall(r'cov: (\d+) ft: (\d+) corp: (\d+)', logtext)
+    key = check.replace('.', '_')
+    ctx.extra[f'{key}_runs'] = ctx.extra.get(f'{key}_runs', 0) + res['runs']
+    if stats:
+        cov, ft, corp = map(int, stats[-1])
+        ctx.extra[f'{key}_cov_max'] = max(ctx.extra.get(f'{key}_cov_max', 0), cov)
+        ctx.extra[f'{key}_features_max'] = max(ctx.extra.get(f'{key}_features_max', 0), ft)
+        ctx.extra[f'{key}_corpus_max'] = max(ctx.extra.get(f'{key}_corpus_max', 0), corp)
+
+
 def repo_head():
     import subprocess
     try:
